@@ -38,3 +38,21 @@ check("C07",
       "string enumeration.",
       TB + "Coordinates are '.' or canonical decimals; known finding Dev_FirstPartDecidesStyle (leading valueless flag in key=value style).",
       "TLA+ character-level spec (AttrSyntax/AttrGrammar) + TLC round-trip theorems over the grammar + spec-generated lines replayed on the code + trace validation of data-file lines")
+
+check("C08",
+      "(b) TLC evaluates the transcriptions Infer and ParseWith (three supplied dialects) on EVERY string of length <= 4 (quick) / 5 (thorough) over the structural "
+      "alphabet - totality of the design by evaluation plus the type invariant - and the real parser is run on every one of those strings (no raise, lists of "
+      "strings; equality with the model is recorded as drift). (a) MC_Lossless proves ParseWith(Render(a,d),d) = a over 20 character classes x every GFF3-/GTF-style "
+      "dialect dictionary except the single named deviation, and that the deviation always loses; every pair and a class-instantiated twin are printed and re-parsed "
+      "by the code. Random mappings are classified by Gen_Attr, random Unicode strings judged by Trace_Attr (includes the UTF-8 'replace' decoder of unquote).",
+      TB + "Members of a character class are assumed to behave alike (instantiated by seed). Known finding Dev_UnquotedGtfStripsEdgeBlanks.",
+      "TLA+ character-level spec + exhaustive string enumeration evaluated by TLC and replayed on the parser + TLC lossless theorem over character classes + trace validation (Trace_Attr)")
+
+check("C09",
+      "Dialect.tla transcribes helpers._choose_dialect (count table in first-seen order, stable descending sort) and states the rule declaratively (weighted majority, "
+      "ties to the value seen first, first-seen key order, window = checklines+1 items); TLC checks Choose_Alg against Choose_Decl for every window of <= 3 (quick) / 4 "
+      "(thorough) lines over a 12-string menu x every checklines, and prints each case. The code is observed through DataIterator.dialect, create_db().dialect, "
+      "FeatureDB(path).dialect, helpers.infer_dialect and the importer actually used; consistent random files (Gen_Attr, in-grammar) must report Observable(d); "
+      "supplied dialects must be reported verbatim.",
+      TB + "Importer routing is observed through a GTF marker line beyond the window.",
+      "TLA+ spec (Dialect on AttrSyntax) + TLC alg-vs-decl check over all small windows + spec-generated windows replayed on the code (JSON equality)")
